@@ -90,6 +90,9 @@ def oracle_case(case, lat):
     if f:
         out.append(('order.not-a-bijection-onto-sites', f, [['order']]))
         return out
+    f = R.oracle_order_spec(case, lat)
+    if f:
+        out.append((f[0], f[1], [['order']]))
     for fn, qq in ((R.oracle_roundtrip, [['order']]), (R.oracle_fix_u, [['order']])):
         f = fn(geo, lat)
         if f:
@@ -110,10 +113,20 @@ def eval_case(case, with_answers=True):
     try:
         with warnings.catch_warnings():
             warnings.simplefilter('ignore')
-            if with_answers:
-                lat, answers = R.run_queries(case)
-            else:
-                lat, answers = R.build_real(case), None
+            try:
+                lat = R.build_real(case)
+            except Exception as e:  # noqa: BLE001
+                # every generated specification is valid: an exception while the lattice is constructed / its order
+                # is set means that the ordering is not a bijection onto the sites (rows outside the lattice, ...)
+                o = case['order']
+                kind = o.get('name') or next(iter(o))
+                v = case.get('variant')
+                sig = f'construction.raised-{type(e).__name__}[order={kind}' + (f',variant={next(iter(v))}]' if v else ']')
+                tb = traceback.extract_tb(e.__traceback__)
+                where = ' <- '.join(f'{t.name}:{t.lineno}' for t in tb[-3:])
+                return {'answers': None, 'oracle': [(sig, f'{type(e).__name__}: {e}'[:300] + ' @ ' + where, [['order']])],
+                        'error': None}
+            answers = R.run_queries(case, lat)[1] if with_answers else None
             orc = oracle_case(case, lat)
         return {'answers': answers, 'oracle': orc, 'error': None}
     except AssertionError as e:
@@ -372,7 +385,9 @@ def load_corpus():
 
 
 def seed_cases(rng):
-    """a small deterministic set: every class once with boundary crossings, plus helical / variants"""
+    """a small deterministic set: every class once with boundary crossings; custom orderings with EVERY priority
+    permutation (incl. the 3-cycles, whose argsort is not its own inverse) x snake patterns on non-cubic lattices"""
+    import itertools
     out = []
     for cls, dim, Lu in G.class_variants():
         Ls = [4] if dim == 1 else [3, 2]
@@ -380,6 +395,23 @@ def seed_cases(rng):
                         [(['periodic', 1], 'infinite'), (['open', 'periodic'], 'finite'), (['periodic', -1], 'finite')]):
             for order in G.named_orders(cls)[-2:]:
                 out.append(G.base_case(cls, Ls, Lu, order, bc, mps))
+    snakes = ([False, False, False], [True, True, True], [True, False, True], [False, True, False])
+    for cls, Ls, Lu in (('Honeycomb', [3, 2], 2), ('Kagome', [2, 4], 3), ('Lattice', [2, 3], 2), ('Lattice', [4, 3], 2),
+                        ('Lattice', [3, 1], 3), ('Honeycomb', [2, 2], 2), ('Kagome', [3, 3], 3)):
+        for k, prio in enumerate(itertools.permutations(range(3))):
+            for j, snake in enumerate(snakes):
+                bc, mps = [(['periodic', 'periodic'], 'infinite'), (['open', 'periodic'], 'finite'),
+                           (['periodic', -1], 'infinite'), (['open', 'open'], 'finite')][(k + j) % 4]
+                out.append(G.base_case(cls, Ls, Lu, {'standard': [list(snake), list(prio)]}, bc, mps))
+    for Ls in ([3, 2], [2, 4]):
+        for prio in itertools.permutations(range(2)):
+            for snake in ([False, False], [True, True], [True, False]):
+                out.append(G.base_case('Square', Ls, 1, {'standard': [list(snake), list(prio)]},
+                                       ['periodic', 'periodic'], 'infinite'))
+    out.append(G.base_case('Lattice', [2, 3, 2], 2, {'standard': [[True, False, True, False], [2, 3, 0, 1]]},
+                           ['periodic', 'open', 'periodic'], 'infinite'))
+    out.append(G.base_case('Lattice', [2, 1, 3], 1, {'standard': [[False] * 4, [1, 2, 3, 0]]},
+                           ['open', 'periodic', 'open'], 'finite'))
     return out
 
 
